@@ -201,15 +201,29 @@ func runCheck(id, tier, only string, seed, workers int, verbose, noMerge bool, s
 			if noReplay {
 				mode = "none"
 			}
-			switch {
-			case mode == "native":
-				ok, note := nativeReplay(cfg, h, v)
+			// replay modes may be chained ("native|symbolic"): the first that reproduces wins
+			for _, md := range strings.Split(mode, "|") {
+				var ok bool
+				var note string
+				switch {
+				case md == "native":
+					ok, note = nativeReplay(cfg, h, v)
+				case md == "symbolic":
+					ok, note = eng.revalidate(h, v)
+				case strings.HasPrefix(md, "driver:"):
+					ok, note = driverReplay(cfg, h, v, strings.TrimPrefix(md, "driver:"))
+				default:
+					ok, note = false, "no replay configured"
+				}
+				if v.ReplayNote != "" {
+					note = v.ReplayNote + " || " + md + ": " + note
+				} else {
+					note = md + ": " + note
+				}
 				v.Replayed, v.ReplayNote = ok, note
-			case strings.HasPrefix(mode, "driver:"):
-				ok, note := driverReplay(cfg, h, v, strings.TrimPrefix(mode, "driver:"))
-				v.Replayed, v.ReplayNote = ok, note
-			default:
-				v.Replayed, v.ReplayNote = false, "no replay configured"
+				if ok {
+					break
+				}
 			}
 			path := saveViolation(id, v)
 			if !v.Replayed && mode != "none" {
